@@ -341,8 +341,13 @@ func effectiveQ(info *types.Info, list []ast.Stmt) []ast.Stmt {
 // unwrapFunc follows thin wrappers: a function whose body is a single `return g(...)` with g a
 // package-level function of the same package stands for g (Parse(val) -> parse(val, 0)).
 func unwrapFunc(p *load.Program, rel string, fd *ast.FuncDecl) *ast.FuncDecl {
-	for i := 0; i < 3 && fd != nil && fd.Body != nil && len(fd.Body.List) == 1; i++ {
-		r, ok := fd.Body.List[0].(*ast.ReturnStmt)
+	pk := p.ByPath[load.Module+"/"+rel]
+	for i := 0; i < 3 && fd != nil && fd.Body != nil && pk != nil; i++ {
+		body := effectiveQ(pk.TypesInfo, fd.Body.List)
+		if len(body) != 1 {
+			break
+		}
+		r, ok := body[0].(*ast.ReturnStmt)
 		if !ok || len(r.Results) != 1 {
 			break
 		}
